@@ -3,6 +3,7 @@ package c16
 import (
 	"bytes"
 	"fmt"
+	"os"
 	"strings"
 	"testing"
 
@@ -191,6 +192,9 @@ func execR(c caseR) (overlap bool, err error) {
 	hist.WriteString("\n  schedule:")
 	for _, m := range moves {
 		fmt.Fprintf(&hist, " op%d:%s", m.Op, m.What)
+	}
+	if os.Getenv("VERIF_HIST") != "" {
+		fmt.Fprintln(os.Stderr, "HISTORY", hist.String())
 	}
 	// Final state through the API.
 	hb := cl.MustCall("HEAD", "/"+b, nil, nil, nil)
